@@ -38,6 +38,9 @@ class StorageUnitLabel:
 
         super().__init__()
 
+        if sequence_number < 0:
+            raise ValueError(f"Storage unit sequence number cannot be negative; got {sequence_number}")
+
         self.sequence_number = sequence_number
         self.set_identifier = validate_string(set_identifier)
         self.max_record_length = max_record_length
